@@ -15,7 +15,7 @@ PROPS["C05"] = dict(
     rule="sweep: case = (stack in {IPv4,IPv6}x{TCP,UDP,ICMP echo}, payload length 0..1600, variant: 0 plain over Ethernet, >0 random options/extension headers/VLAN/raw-IP link) plus Ethernet-padding shapes x payload 0..60; "
          "random: case = layer spec drawn from the stack grammar + 2..5 history steps (payload/address/option changes, L4 replacement, VLAN insertion, clone, zero-sum steering, re-parse); "
          "distinct = distinct (link type, layer kinds, option kinds and sizes, payload size); non-trivial = every case serializes at least once and every derived field of every layer is compared",
-    floors=dict(any={"distinct": 30000, "serializations_checked": 200000, "steps:mutated": 80000, "pcap_predicates": 800000, "bpf_programs_compiled": 100000,
+    floors=dict(any={"rfc4884-ext-without-datagram": 100, "distinct": 30000, "serializations_checked": 200000, "steps:mutated": 80000, "pcap_predicates": 800000, "bpf_programs_compiled": 100000,
                      "pcap_true_expected": 300000, "pcap_false_expected": 300000,
                      "chk:cksum/ip": 80000, "chk:cksum/tcp": 40000, "chk:cksum/udp": 40000, "chk:cksum/icmp": 15000, "chk:cksum/icmp6": 12000, "chk:cksum/radiotap": 5000,
                      "chk:length/ip": 80000, "chk:length/ip6": 50000, "chk:length/udp": 40000, "chk:length/dot3": 8000, "chk:length/pppoe": 10000, "chk:length/eapol": 5000,
